@@ -685,3 +685,227 @@ def replay_all_param(payload):
     key = (payload.get('replay') or payload).get('key')
     hit = [f for f in r['failures'] if f['key'] == key]
     return {'reproduced': bool(hit), 'failure': hit[:1]}
+
+
+# ---------------------------------------------------------------------------------------------------------------------
+# C14: the position-merging step functions of Call and ClassDef (positional / starred arguments or bases interleaved
+# with keywords by source position).  No user invariants: every loop in these functions is a linear search and is
+# summarised exactly by pyvc.loops.SearchLoop (side conditions checked on the real loop body).
+#
+# World: the two merged lists have symbolic lengths; element i of list F sits at an uninterpreted position
+# (LINE_F(i), COL_F(i)).  Well-formedness of a tree parsed from valid Python (assumed, quantified):
+#   sorted      i < j  ->  pos_F(i) < pos_F(j)            (both lists, lexicographic)
+#   distinct    pos_A(i) != pos_K(j)
+#   grammar     a positional that is NOT starred precedes every keyword  (Python's call syntax)
+# Specification (same shape as the rank specification): the result is a present child beyond x in syntactic order and
+# no present child y lies strictly between; None only if nothing lies beyond.
+
+MERGE = {
+    'Call': dict(groups=[['func'], ['args', 'keywords'], []], single={'func'}, A='args', K='keywords'),
+    'ClassDef': dict(groups=[['decorator_list'], ['type_params'], ['bases', 'keywords'], ['body']], single=set(),
+                     A='bases', K='keywords'),
+}
+
+
+def merge_specs(prop='C14'):
+    import z3
+    from pyvc import frontend, sym, values
+    from pyvc.contract import Fragment
+    from pyvc.interp import Interp, IFunc, SObj, PyRaise
+    from pyvc.loops import SearchLoop
+    from pyvc.sym import truth, eq, cur, lex_lt, _wrap_int, _wrap_bool
+    from pyvc.logic import and_, or_, not_, implies
+
+    I, B = z3.IntSort(), z3.BoolSort()
+    STARRED = SObj('Starred', {})
+    OTHER = SObj('OtherClass', {})
+
+    class FRef:
+        def __init__(self, field, idx):
+            self.field, self.idx = field, idx
+
+        def __repr__(self):
+            return f'F({self.field}[{self.idx}])'
+
+    class Elem(SObj):
+        """the i-th element of a list field: two reads of the same position are the same object"""
+
+        def _sym_is(self, other):
+            if not isinstance(other, Elem):
+                return False
+            a, b = self._get('f'), other._get('f')
+            return eq(a.idx, b.idx) if a.field == b.field else False
+
+    def table(modname, varname):
+        d = frontend.module_assign(modname, varname)
+        out = {}
+        for k, v in zip(d.keys, d.values):
+            if isinstance(k, ast.Tuple) and len(k.elts) == 2 and isinstance(k.elts[0], ast.Name) \
+                    and isinstance(k.elts[1], ast.Constant) and isinstance(v, ast.Name):
+                out[(k.elts[0].id, k.elts[1].value)] = v.id
+        return out
+
+    def world(ctx, cls):
+        spec = MERGE[cls]
+        LN, CO, ST, L = {}, {}, {}, {}
+        attrs = {}
+        fields = [f for g in spec['groups'] for f in g]
+        for fld in fields:
+            if fld in spec['single']:
+                attrs[fld] = SObj(f'{cls}.{fld}', {}, f=FRef(fld, None))
+                continue
+            LN[fld] = z3.Function(f'LINE_{cls}_{fld}', I, I)
+            CO[fld] = z3.Function(f'COL_{cls}_{fld}', I, I)
+            ST[fld] = z3.Function(f'STAR_{cls}_{fld}', I, B)
+
+            def elem(i, fld=fld):
+                touch(fld, i)
+                star = truth(_wrap_bool(ST[fld](sym._z(i)))) if fld == spec['A'] else False
+                return Elem(f'{cls}.{fld}[]', {}, f=FRef(fld, i), lineno=_wrap_int(LN[fld](sym._z(i))),
+                            col_offset=_wrap_int(CO[fld](sym._z(i))), **{'__class__': STARRED if star else OTHER})
+            lb = values.ListBase(f'{cls}.{fld}', elem)
+            L[fld] = lb.length()
+            attrs[fld] = values.SList.of_base(lb)
+        node = SObj(cls, attrs)
+
+        def pos(fld, i):
+            return (_wrap_int(LN[fld](sym._z(i))), _wrap_int(CO[fld](sym._z(i))))
+        A, K = spec['A'], spec['K']
+        seen = {A: [], K: []}
+
+        def zlt(fa, a, fb, b):   # lexicographic < on z3 terms
+            return z3.Or(LN[fa](a) < LN[fb](b), z3.And(LN[fa](a) == LN[fb](b), CO[fa](a) < CO[fb](b)))
+
+        def touch(fld, i):
+            """instantiate the well-formedness axioms at every pair of index terms the execution / the contract names
+            (quantifier-free: the axioms are universally quantified, any set of instances is sound)"""
+            if fld not in seen:
+                return
+            zi_ = z3.simplify(sym._z(i))
+            if any(zi_.eq(t) for t in seen[fld]):
+                return
+            inr_i = z3.And(0 <= zi_, zi_ < sym._z(L[fld]))
+            for t in seen[fld]:
+                inr_t = z3.And(0 <= t, t < sym._z(L[fld]))
+                ctx.add(z3.Implies(z3.And(inr_i, inr_t, zi_ < t), zlt(fld, zi_, fld, t)))
+                ctx.add(z3.Implies(z3.And(inr_i, inr_t, t < zi_), zlt(fld, t, fld, zi_)))
+            other = K if fld == A else A
+            for u in seen[other]:
+                inr_u = z3.And(0 <= u, u < sym._z(L[other]))
+                a_, k_ = (zi_, u) if fld == A else (u, zi_)
+                ctx.add(z3.Implies(z3.And(inr_i, inr_u), z3.Or(zlt(A, a_, K, k_), zlt(K, k_, A, a_))))
+                ctx.add(z3.Implies(z3.And(inr_i, inr_u, z3.Not(ST[A](a_))), zlt(A, a_, K, k_)))
+            seen[fld].append(zi_)
+        node._touch = touch
+        return node, L, pos
+
+    def major(cls, fld):
+        for g, fs in enumerate(MERGE[cls]['groups']):
+            if fld in fs:
+                return g
+        raise KeyError(fld)
+
+    def present(cls, node, L, fld, i):
+        if fld in MERGE[cls]['single']:
+            return True
+        return and_(0 <= i, i < L[fld])
+
+    def before(cls, pos, fa, ia, fb, ib):
+        """child (fa, ia) precedes child (fb, ib) in syntactic order"""
+        ga, gb = major(cls, fa), major(cls, fb)
+        if ga != gb:
+            return ga < gb
+        if fa == fb:
+            return ia < ib if fa not in MERGE[cls]['single'] else False
+        return lex_lt(pos(fa, ia), pos(fb, ib))
+
+    out = []
+    for direction, modname, varname in (('next', 'traverse_next', 'NEXT_FUNCS'), ('prev', 'traverse_prev', 'PREV_FUNCS')):
+        tbl = table(modname, varname)
+        cases = []
+        for cls, spec in MERGE.items():
+            fields = [f for g in spec['groups'] for f in g]
+            for fld in [None] + fields:
+                for yf in fields:
+                    cases.append(dict(cls=cls, field=fld, fn=tbl.get((cls, fld)), y=yf, dir=direction))
+
+        def run(ctx, case, loc, pre, label, modname=modname, direction=direction):
+            cls, fld, fn, yf = case['cls'], case['field'], case['fn'], case['y']
+            name = f'{pre}.{direction}.{cls}.{fld or ("START" if direction == "next" else "END")}'
+            if fn is None:
+                ctx.prove(f'{name}.table_entry', False, info='no table entry')
+                return
+            node, L, pos = world(ctx, cls)
+            single = MERGE[cls]['single']
+            if fld is None or fld in single:
+                idx = None
+            else:
+                idx = ctx.int('idx')
+                ctx.assume(and_(0 <= idx, idx < L[fld]))     # requires: x is a present child
+            iy = 0 if yf in single else ctx.int('iy')
+            if idx is not None:
+                node._touch(fld, idx)
+            if yf not in single:
+                node._touch(yf, iy)
+            floc = frontend.locate(f'{modname}:{fn}')
+            it = Interp({'Starred': STARRED})
+            helpers = set()
+            for n in ast.walk(floc.node):   # helper functions of the same module called by name (the SPECIAL start helper)
+                if isinstance(n, ast.Call) and isinstance(n.func, ast.Name) and n.func.id.startswith(('_next_', '_prev_')):
+                    helpers.add(n.func.id)
+            for h in helpers:
+                hl = frontend.locate(f'{modname}:{h}')
+                it.globals[h] = IFunc(it, hl.node, None, h)
+                for k, _ in enumerate(frontend.loops_of(hl.node)):
+                    it.loop_specs[(h, k)] = SearchLoop(f'{name}.{h}.loop{k}', lambda env: [iy])
+            for k, _ in enumerate(frontend.loops_of(floc.node)):
+                it.loop_specs[(fn, k)] = SearchLoop(f'{name}.loop{k}', lambda env: [iy] + ([L[MERGE[cls]['A']] - 2 - iy,
+                                                                                         iy - 1]))
+            try:
+                got = it.call(IFunc(it, floc.node, None, fn), (node, idx))
+            except PyRaise as pr:
+                ctx.prove(f'{name}.no_raise', False, info=f'raised {pr.cls.__name__}: {pr.exc}')
+                return
+            ctx.notes['outcome'] = 'return'
+            yp = present(cls, node, L, yf, iy)
+
+            def beyond(fa, ia, fb, ib):      # (fa, ia) -> (fb, ib) in the direction of travel
+                return before(cls, pos, fa, ia, fb, ib) if direction == 'next' else before(cls, pos, fb, ib, fa, ia)
+            if fld is None:
+                x_beyond_y = lambda f2, i2: True          # START / END: everything lies beyond
+            else:
+                x_beyond_y = lambda f2, i2: beyond(fld, idx, f2, i2)
+            if got is None:
+                ctx.prove(f'{name}.none_means_last[y={yf}]', implies(yp, not_(x_beyond_y(yf, iy))),
+                          info='returned None although a child lies further in that direction')
+                return
+            if not isinstance(got, FRef):
+                ctx.prove(f'{name}.returns_child', False, info=f'returned {got!r}')
+                return
+            gi = got.idx if got.idx is not None else 0
+            ctx.prove(f'{name}.result_is_present_child', present(cls, node, L, got.field, gi))
+            ctx.prove(f'{name}.result_is_beyond', x_beyond_y(got.field, gi))
+            ctx.prove(f'{name}.nothing_between[y={yf}]',
+                      implies(yp, not_(and_(x_beyond_y(yf, iy), beyond(yf, iy, got.field, gi)))),
+                      info='a present child lies strictly between x and the returned node')
+
+        out.append(Fragment(f'{modname}:_{direction}_None', prop, 'merge', cases, run, native=('k_traverse', 'replay_merge'),
+                            notes='Call / ClassDef: positional/starred elements merged with keywords by position; loops '
+                                  'summarised by the search-loop rule; sortedness / distinctness / call-syntax order of the '
+                                  'two lists assumed (quantified axioms)'))
+    return out
+
+
+def replay_merge(payload):
+    """native: the counter-model's positions are uninterpreted; a failing input is SEARCHED on real trees - every
+    argument-like sequence CPython accepts up to length 5 as a call and as class bases, next/prev chains vs positions"""
+    from contracts import b_read
+    from contracts.b_lib import is_known
+    n = 0
+    for name, src in b_read.interleave_programs(5):
+        r = b_read.work(name, src, {'props': ['C14'], 'tier': 'quick', 'seed': 0, 'norm': False})
+        n += r['evaluations']
+        f = [x for x in r['failures'] if not is_known(x['key'])]
+        if f:
+            return {'reproduced': True, 'failing_input': dict(f[0], source=src[:400])}
+    return {'reproduced': False, 'note': f'no failing chain among {n} evaluations on generated calls / class headers'}
